@@ -108,6 +108,18 @@ CHECKS["C10"] = dict(
     note="Coq kernel; tr_c10.py; oracle trusted as specification; forms sampled; table classification uses default tolerances regardless of the options (noted)",
     design="DESIGN.md 3 C10")
 
+CHECKS["C12"] = dict(
+    technique="Coq proof: site table of every hash-ordered set / process-global id in ffcx/ regenerated by a syntactic scanner, finite theorem that no site leaks enumeration order, general theorem that a sorted site is enumeration-independent (Order.v); subprocess generation under different PYTHONHASHSEED values and histories compared byte for byte",
+    text="Proved: for any two enumerations of the same elements a sorted site returns the same list (keys separating the elements); size/membership observations are order-free; every site the scanner finds in ffcx/ is Sorted, OrderFree or a list de-duplication (finite, re-derived from the source on every run; three sites cleared by a justified allow-list). Sampled: every corpus case generated in separate processes for several hash seeds and under four histories (unrelated UFL objects first, reverse order, another form in between, same form twice), C and numba, digests equal.",
+    note="Coq kernel+VM; tr_sites.py (syntactic, flow-insensitive; UFL's and basix' own ordering functions are outside it); forms, seeds and histories sampled",
+    design="DESIGN.md 3 C12")
+
+CHECKS["C18"] = dict(
+    technique="Correspondence: the numba module FFCx generates is parsed, executed in plain Python (numba.carray modelled as a numpy view of the declared extent) and every kernel compared with the C kernel of the same objects on the same inputs; descriptor classes compared with the C descriptors and the user's expressions. Coq proof (small): the numba formatter's parenthesisation comparators, regenerated from the source, coincide with the C formatter's, whose output derives the canonical tree (Fmt.fmtC_derives)",
+    text="Sampled forms/expressions (all integral types, conditionals with Not/And/Or, min/max/abs/sign/power, all math functions, interior facets with coefficients in 1D/2D/3D, facet permutations, mixed spaces, constants, complex and single precision, two rules, diagonal, sum factorisation): valid Python, the kernels agree with the C kernels to 1e-11, reads stay inside the extents declared by tensor_sizes, descriptors carry the same metadata. Proved only: both printers parenthesise the same operand positions of the same AST. The Python grammar is not formalised (partial); real numba.cfunc compilation is left to the test suite.",
+    note="CPython as executor of the generated module; numba stub (harness/nbrun.py); gcc; Coq kernel for the comparator theorem; forms sampled",
+    design="DESIGN.md 3 C18")
+
 ALL = [f"C{i:02d}" for i in range(1, 21)]
 
 NOT_YET = "check not built yet in this session (work in progress; see DESIGN.md section 6 for the order of construction)"
